@@ -52,6 +52,8 @@ var c01Inline = []string{
 // c01Block are fragments that replace the rest of a `key: value` line by block-style content.
 var c01Block = []string{
 	"|\n%s  text\n%s  more", ">-\n%s  folded\n%s  text", "\n%s  sub: x\n%s  other: y", "\n%s  - x\n%s  - y", "\n%s  - a: b\n%s    c: d", "\n%s  ? [complex]\n%s  : v", "|+\n%s  keep\n%s", "\n%s  <<: *manc\n%s  k: v",
+	// block scalars whose text, read on its own, is no YAML value: comments only, document markers
+	"|\n%s  # only a comment\n%s  # and another", ">-\n%s  # folded comment\n%s", "|-\n%s  ---\n%s", "|\n%s  ...\n%s  ---", "|-\n%s  %%YAML 1.2\n%s  ---",
 }
 
 type c01Channel struct {
